@@ -6,7 +6,10 @@ if ! git diff --quiet; then echo "repo dirty"; exit 9; fi
 pf=/verif/seeded/$seed/patch.diff
 [ -f /verif/seeded/$seed/patch.fixed.diff ] && pf=/verif/seeded/$seed/patch.fixed.diff   # ported onto the repaired tree
 if ! git apply $pf 2>/tmp/apply.err; then echo "APPLY-FAIL $seed: $(head -1 /tmp/apply.err)"; git reset -q --hard HEAD; git clean -fdq; exit 8; fi
+# evidence written while a seeded change is applied must never replace the evidence of the unchanged tree
+ev=/verif/evidence/$prop.json; bak=$(mktemp); [ -f $ev ] && cp $ev $bak
 cd /verif && ./check $prop --tier $tier "${@:4}"; rc=$?
+[ -s $bak ] && cp $bak $ev; rm -f $bak
 cd /repo && git reset -q --hard HEAD && git clean -fdq
 echo "seed=$seed prop=$prop exit=$rc"
 exit $rc
